@@ -19,15 +19,15 @@ T = {
     "C03": ("exploration", "7",
             "runtime monitoring: per-tick conservation invariant + shadow ledger (M4) under adaptive command scripts and full simulations",
             "After every executor tick of generated command scripts (legal and overselling batches, suspensions, kills, 1..4 pools, with/without overcommit, tick rates 1..100000) and of simulations under every shipped scheduler, free + held = capacity is recomputed from the live container lists and compared with an independent ledger that releases each allocation exactly once in the model's ending tick.",
-            "Sampling of schedules; conservation is also asserted at every public ResourcePool method exit (P5). Trusted: ledger model M4, container model M3 for ending ticks."),
+            "Sampling of schedules, including long busy scripts (4,500-9,000 ticks, ~12,000 containers in one pool) and simulations large in one dimension (thousands of pipelines, hundreds of suspensions) and a random admissible policy. Trusted: ledger model M4, container model M3 for ending ticks."),
     "C04": ("exploration", "7",
             "runtime monitoring: per-tick memory invariants + demand oracle (M3) + kill-justification acceptor (M5)",
             "After every tick: running container use <= allocation, pool use <= capacity, reported use == sum of running containers' use; every failure result must be justified by the independent per-tick demand model (own limit, or pool demand above capacity with overcommit).",
-            "Sampling; float tolerance 1e-9 relative at limits, 1e-6 GB for reported usage. Trusted: M3/M5."),
+            "Sampling incl. long busy scripts with growing memory (>10,000 memory updates per pool). Float tolerance 1e-9 relative at limits (computed values only; given constants are strict), 1e-6 GB for reported usage. Trusted: M3/M5."),
     "C05": ("exploration", "7",
             "runtime monitoring: lock-step reference model of container time/memory (M3) on generated single containers",
             "Tens of thousands of generated single containers (all seven scaling laws, 1..6 operators, 1..3 segments, fixed/growing memory, boundary-adjacent durations and allocations, tick rates 1..100000) are executed through the real Executor while an independent model predicts memory use, operator states and the result for every tick; any difference is a violation.",
-            "Sampling of an unbounded input space, boundary classes enumerated; float-boundary cases accepted on either side as C05 states. Trusted: M3."),
+            "Sampling of an unbounded input space, boundary classes enumerated; also retries of the same operators with another CPU count, neighbours whose memory changes cancel, long-lived containers next to heavy churn. Float-boundary cases accepted on either side as C05 states. Trusted: M3."),
     "C06": ("exploration", "7",
             "runtime monitoring: independent recount (M7) of every returned statistic from recorded arrivals, decisions and results",
             "run_simulator itself is driven with a recording workload/scheduler/executor wrap; every field of SimulatorStats named by the property is recomputed from the recorded events and compared (1e-9 relative, NaN==NaN); completion tick, exactly-once counting and uncontended latency = model ticks - 1 are checked per pipeline.",
@@ -35,7 +35,7 @@ T = {
     "C07": ("exploration", "7",
             "runtime monitoring: equality of canonical event logs of paired runs (same process, fresh processes under different PYTHONHASHSEED)",
             "Each configuration is run repeatedly: twice in one process with unrelated simulations in between, and in fresh interpreter processes under different hash seeds; the canonicalised tick-by-tick logs of arrivals, decisions, results and the statistics must be identical; generated workloads must not depend on scheduler/executor parameters and must differ across seeds.",
-            "Sampling over parameter sets; log digests compared by the parent. Trusted: canonicalisation (renumbering by first appearance)."),
+            "Sampling over parameter sets; every process visits the configurations in another rotation and under another PYTHONHASHSEED; second runs are positioned at container-id roll-overs; log digests compared by the parent. Trusted: canonicalisation (renumbering by first appearance)."),
     "C08": ("exploration", "7",
             "runtime monitoring: totality oracle (returns statistics, no exception) over generated valid configurations x workloads",
             "run_simulator is executed for thousands of generated valid configurations (tick rates 1..100000, 1 CPU, sub-GB pools, sub-tick durations, decimal probability triples, both modes, DAG workloads with zero-tick segments) under naive, priority, priority-pool, overbook and the rendered starter template; any escaping exception is a violation with tick and decision recorded.",
@@ -47,7 +47,7 @@ T = {
     "C10": ("fault_enumeration", "7",
             "runtime monitoring: suspension injected at every tick of every generated container's life, judged by model M6",
             "For each generated container scenario a suspension request is injected at every tick of its life (enumerated injection points); acceptance/refusal, duration max(1, floor(ram/20*tps)), no progress, allocation held then released exactly once, operator states afterwards and re-assignability are compared with the model; random scripts add concurrent activity.",
-            "Injection points exhaustive per generated container; containers themselves sampled. Trusted: M6/M3."),
+            "Injection points exhaustive per generated container; containers themselves sampled; plus long busy scripts with hundreds of overlapping write-outs. Trusted: M6/M3."),
     "C11": ("exploration", "7",
             "runtime monitoring: clause-form acceptor (M5) for pool-level OOM victims on every over-capacity tick",
             "Overcommitted pools with 2..12 concurrent containers whose usage order and score order disagree are driven across capacity; for every tick the failed set is checked clause by clause: individual victims, no victim while a strictly higher score survives, no finished/zero-usage victim, last kill necessary, survivors fit.",
